@@ -1329,6 +1329,11 @@ impl Property for C14 {
             Cause::ServerDisconnect(rc::Disconnect { reason: 0x8b, ..Default::default() }, true),
             Cause::ServerDisconnect(rc::Disconnect::default(), true),
             Cause::Garbage(vec![0x00, 0x00]),
+            // one more server DISCONNECT reason per case, so that all of them come up
+            Cause::ServerDisconnect(
+                rc::Disconnect { reason: rc::SERVER_DISCONNECT_REASONS[(case_hash(case) as usize) % rc::SERVER_DISCONNECT_REASONS.len()], reason_string: Some("bye".into()), ..Default::default() },
+                false,
+            ),
         ];
         for cause in causes {
             if o.fail.is_some() {
